@@ -3,6 +3,10 @@ Correspondence (K):
   (a) `ledger query ARGS` (multiple_args) and `ledger --collapse query ARGS` (single-argument lexing)
       print the parsed limit predicate; compared with print_expr (Query.parse argv) of the extracted model on
       generated query trees in every spelling plus a stream of near-random argument vectors;
+  (c) sequences of 1-7 limit contributions with repetitions (--limit, -b, -e, -C, -U, --pending, -R, -L, -c,
+      -p from/to, a query), the same sequence shuffled, de-duplicated, and every contribution alone, compared
+      with Filter.report_with (which models terminus/today); oracle: the sequence selects the intersection of
+      what its contributions select alone, in any order and multiplicity;
   (b) `reg --format` rows (posting line|account|payee|exact amount|date|state) under no limit, --limit P,
       --limit '!(P)', Q, P&Q, P|Q, two --limit options, a command-line query, the query's equivalent
       expression, --begin / --end / both, compared with Filter.report_posts on the same abstract journal.
@@ -17,12 +21,13 @@ META = dict(
     id='C07',
     level='proof',
     technique='Coq proof (set algebra of the posting filter over a model of predicate evaluation; query lexer/parser model with a parse theorem for rendered query trees) + differential correspondence of the extracted model against ledger',
-    level_text='Theorems in coq/Properties/Properties_C07.v state, for all posting lists and all predicates whose evaluation does not error: --limit P and --limit !P select disjoint order-preserving sub-sequences of the unfiltered list that merge back to it, with every posting passed through unchanged; & and | (with the non-boolean results of op.cc O_AND/O_OR/O_NOT) select intersection and union; several limits compose; --begin D / --end D keep exactly date >= D / date < D and are complementary; and the model of the command-line query parser (query.cc lexer and precedence ladder, transcribed) maps a rendered query tree (account/payee/code/note terms, not/and/or in both spellings, juxtaposition, minimal parentheses; one token per argument) to the intended expression in both lexing modes, so such a query selects what its expression selects (query_parse_spec_partial: tag selectors, expr, quoted patterns and several tokens per argument are covered by the correspondence only). The model is tied to the code by comparing the parsed predicate text of thousands of generated argument vectors (`query` pre-command, both lexing modes) and the register rows of generated journals under twelve paired limit settings with the extracted model.',
+    level_text='Theorems in coq/Properties/Properties_C07.v state, for all posting lists and all predicates whose evaluation does not error: --limit P and --limit !P select disjoint order-preserving sub-sequences of the unfiltered list that merge back to it, with every posting passed through unchanged; & and | (with the non-boolean results of op.cc O_AND/O_OR/O_NOT) select intersection and union; several limits compose, and sequences of limit contributions (--limit, -b, -e, -C, -U, --pending, -R, -L, -c, -p bounds, the query - all through the limit_ handler whose combine expression the translator re-reads from report.h/option.h on every run) select the intersection of what each selects alone, independent of order and repetition (the one exception, -c under -e, is finding F95 and stated as current_with_end_refuted); --begin D / --end D keep exactly date >= D / date < D and are complementary; and the model of the command-line query parser (query.cc lexer and precedence ladder, transcribed) maps a rendered query tree (account/payee/code/note terms, not/and/or in both spellings, juxtaposition, minimal parentheses; one token per argument) to the intended expression in both lexing modes, so such a query selects what its expression selects (query_parse_spec_partial: tag selectors, expr, quoted patterns and several tokens per argument are covered by the correspondence only). The model is tied to the code by comparing the parsed predicate text of thousands of generated argument vectors (`query` pre-command, both lexing modes) the register rows of generated journals under fifteen paired limit settings, and option sequences with repetitions in two orders against each contribution alone, with the extracted model.',
     level_note='Trusted: Coq kernel; extraction + OCaml driver and the python harness for the correspondence. Regular expressions are literal patterns (case-insensitive ASCII substring search stands for boost::regex icase search); the value-expression parser that reads --limit text and `expr ARG` is C15\'s subject and is a parameter of the query model; journal text -> in-memory posting (notes, tags, state inheritance) is computed by the harness renderer and validated through the same correspondence. show/only/bold/for/since/until query sections are outside the modelled fragment.',
     design_ref='DESIGN.md section 7 C07',
     assumptions=['patterns are literal: letters, digits, space, colon (no regex metacharacters); ASCII only',
                  'posting amounts carry no more decimals than their commodity displays, so amount truth is the exact non-zero test',
                  'tag names within one item are distinct ignoring case; no Payee: tags, no --aux-date',
+                 '-p is given at most once per bound (from / to); the period parser itself is C13\'s subject and the model receives the resolved bounds',
                  'query arguments are non-empty and contain no NUL byte'],
 )
 
@@ -581,8 +586,12 @@ def run(ctx, scale=1):
                 '(virtual/balanced-virtual postings, states, codes, notes, tags, posting dates, zero amounts, 3 '
                 'commodities) x 12 limit settings; non-trivial = the run selects a non-empty proper subset or errors; '
                 'distinct by argv / by journal+limit text')
+    res.rule += ('; (c) sequences of 1-6 limit contributions with repetitions and in two orders (--limit, -b, -e, -C, -U, '
+                 '--pending, -R, -L, -c under a --now inside the journal, -p from/to, a query) against each contribution '
+                 'alone; non-trivial = the sequence repeats a contribution or selects a non-empty proper subset')
     part_a(ctx, rng, res, scale)
     part_b(ctx, rng, res, scale)
+    part_c(ctx, rng, res, scale)
     return res
 
 
@@ -796,6 +805,234 @@ def oracle_b(res, m, got):
             viol('range:boundary', '--begin %s --end %s does not keep exactly the postings in between' % (db, de), ['range'], ids(got['range'][1]), want)
 
 
+# ---------------------------------------------------------------- (c) option sequences
+FLAGS = {'cleared': ['-C', '--cleared'], 'uncleared': ['-U', '--uncleared'], 'pending': ['--pending'],
+         'real': ['-R', '--real'], 'actual': ['-L', '--actual']}
+
+
+def item_args(rng, it):
+    """one limit contribution -> its command-line words (spelling picked at random)"""
+    k = it[0]
+    pick = (lambda l: rng.choice(l)) if rng else (lambda l: l[0])
+    dfmt = lambda d: d.strftime(pick(['%Y/%m/%d', '%Y-%m-%d']))
+    if k == 'limit':
+        return [pick(['--limit', '-l']), it[1]]
+    if k == 'begin':
+        return [pick(['-b', '--begin']), dfmt(it[1])]
+    if k == 'end':
+        return [pick(['-e', '--end']), dfmt(it[1])]
+    if k == 'flag':
+        return [pick(FLAGS[it[1]])]
+    if k == 'current':
+        return [pick(['-c', '--current'])]
+    if k == 'pfrom':
+        return [pick(['-p', '--period']), pick(['from ', 'since ']) + dfmt(it[1])]
+    if k == 'pto':
+        return [pick(['-p', '--period']), pick(['to ', 'until ']) + dfmt(it[1])]
+    raise ValueError(k)
+
+
+def seq_args(rng, items):
+    opts, tail = [], []
+    for it in items:
+        if it[0] == 'qry':
+            tail = list(it[1])
+        else:
+            opts += item_args(rng, it)
+    return opts, tail
+
+
+def run_seq(journal, now, opts, tail):
+    args = ['-f', journal, '--now', now.strftime('%Y/%m/%d')] + opts + ['reg', '--empty', '--format', FMT] + tail
+    st, out, err = lib.run_ledger(args)
+    if st not in (0, 1):
+        return 'CRASH(%s)' % st, []
+    if st != 0 or b'Error' in err:
+        return 'ERR', []
+    return 'OK', [r for r in out.decode('utf-8', 'replace').split('\n') if r]
+
+
+def seq_sx(items, now):
+    """the model's view of a sequence: contributions in order, one period entry, the query"""
+    out, pf, pt = [], '~', '~'
+    br = lambda d: [hb('[%s]' % d.strftime('%Y/%m/%d')), d.toordinal()]
+    for it in items:
+        k = it[0]
+        if k == 'limit':
+            out.append(['e', expr_sx(it[2])])
+        elif k == 'begin':
+            out.append(['begin'] + br(it[1]))
+        elif k == 'end':
+            out.append(['end'] + br(it[1]))
+        elif k == 'flag':
+            out.append(['flag', it[1]])
+        elif k == 'current':
+            out.append(['current', hb('today')])
+        elif k == 'pfrom':
+            pf = br(it[1])
+        elif k == 'pto':
+            pt = br(it[1])
+        elif k == 'qry':
+            out.append(['qry', 1, [hb(a) for a in it[1]], ['ext'] + [[hb(t), expr_sx(e)] for t, e in it[2]]])
+    if pf != '~' or pt != '~':
+        out.append(['period', pf, pt])
+    out.append(['now', now.toordinal()])
+    return out
+
+
+def gen_item(rng, posts, dates):
+    r = rng.random()
+    d = lambda: rng.choice(dates) + datetime.timedelta(days=rng.choice([0, 0, 1, -1, 7]))
+    if r < 0.28:
+        e = gen_pred(rng, posts, rng.choice([0, 0, 1, 1, 2]))
+        if rng.random() < 0.25:
+            # a user expression that contains the parenthesised text of an option's condition
+            c = rng.choice(['cleared', 'real', 'pending', 'actual'])
+            e = ('or', ('id', c), e)
+            return ('limit', '(%s) | %s' % (c, render_expr(e[2])), e)
+        return ('limit', render_expr(e, rng), e)
+    if r < 0.40:
+        return ('begin', d())
+    if r < 0.50:
+        return ('end', d())
+    if r < 0.78:
+        return ('flag', rng.choice(['cleared', 'cleared', 'uncleared', 'pending', 'real', 'real', 'actual']))
+    if r < 0.86:
+        return ('current',)
+    if r < 0.93:
+        return ('pfrom', d())
+    return ('pto', d())
+
+
+def item_key(it):
+    return (it[0],) + tuple(str(x) for x in it[1:2])
+
+
+def part_c(ctx, rng, res, scale):
+    nc = ctx.scale(220, 1400) * scale
+    jobs, metas = [], []
+    for j in range(nc):
+        text, posts = gen_journal(rng, rng.choice([3, 4, 5, 6]))
+        path = ctx.path('s%d.dat' % j)
+        open(path, 'w').write(text)
+        dates = sorted({(p['date'] or p['xdate']) for p in posts})
+        now = rng.choice(dates) + datetime.timedelta(days=rng.choice([0, 0, 1, -1, 3]))
+        # a small pool, drawn from with replacement: A B A, A A, -b D1 -b D2, ...
+        pool = []
+        for _ in range(rng.choice([1, 2, 2, 3, 3, 4])):
+            it = gen_item(rng, posts, dates)
+            if it[0] in ('pfrom', 'pto') and any(x[0] == it[0] for x in pool):
+                continue
+            pool.append(it)
+        if rng.random() < 0.3:
+            argv, ext, E = gen_query_case(rng, posts, rng.choice([1, 2]), True)
+            pool.append(('qry', argv, ext, E))
+        n = rng.choice([1, 2, 3, 3, 4, 4, 5, 6])
+        seq, once = [], set()
+        for _ in range(n):
+            it = rng.choice(pool)
+            if it[0] in ('pfrom', 'pto', 'qry'):
+                if it[0] in once:
+                    continue
+                once.add(it[0])
+            seq.append(it)
+        if len(pool) >= 2 and len(seq) >= 2 and rng.random() < 0.5 and seq[0][0] not in ('pfrom', 'pto', 'qry'):
+            seq.append(seq[0])                       # ... A again after something else
+        if not seq:
+            seq = [pool[0]]
+        perm = list(seq)
+        rng.shuffle(perm)
+        dedup = []
+        for it in seq:
+            if item_key(it) not in [item_key(x) for x in dedup]:
+                dedup.append(it)
+        runs = [('all', []), ('seq', seq), ('perm', perm), ('dedup', dedup)] + [('alone%d' % i, [it]) for i, it in enumerate(dedup)]
+        cmds = []
+        for name, items in runs:
+            opts, tail = seq_args(rng, items)
+            cmds.append((opts, tail))
+            jobs.append((path, now, opts, tail))
+        metas.append(dict(j=j, path=path, text=text, posts=posts, now=now, runs=runs, cmds=cmds, dedup=dedup, seq=seq))
+    outs = pmap(lambda jb: run_seq(*jb), jobs)
+    lines = [lib.sx(['f', 'c%d' % m['j'], ['posts'] + [post_sx(p) for p in m['posts']],
+                     ['runs'] + [['run', name] + seq_sx(items, m['now']) for name, items in m['runs']]]) for m in metas]
+    model = lib.run_model('C07', lines)
+    k = 0
+    for m in metas:
+        got = {}
+        nall = len(m['posts'])
+        for (name, items), (opts, tail) in zip(m['runs'], m['cmds']):
+            st, rows = outs[k]
+            mo = model[k].split(' ', 2)
+            k += 1
+            mstat = 'ERR' if mo[2].startswith(('ERR', 'QERR')) else 'OK'
+            mrows = [r for r in mo[2][3:].split(';') if r] if mstat == 'OK' else []
+            got[name] = (st, rows)
+            res.evaluations += 1
+            res.traces += 1
+            res.count('c:%s:%s' % (re.sub(r'\d+', '', name), st))
+            case = dict(journal=m['text'], now=str(m['now']), seq=[opts + ['reg'] + tail])
+            if st.startswith('CRASH'):
+                res.violations.append(dict(key='sequence:crash', desc='reg died (%s) under %s' % (st, opts + tail), case=case,
+                                           observed=st, required='a report or an error'))
+                continue
+            irows = [canon_row(r) for r in rows]
+            if st != mstat or (st == 'OK' and irows != mrows):
+                res.disagreements.append(dict(name='C07/sequence-rows', case=case, impl=[st] + irows, model=[mstat] + mrows))
+            if name == 'seq':
+                for it in items:
+                    res.count('c:item:' + it[0])
+                res.count('c:len:%d' % len(items))
+                if len(items) != len(m['dedup']) or (st == 'OK' and 0 < len(rows) < nall):
+                    res.nontrivial.add('s:%d' % m['j'])
+        oracle_c(res, m, got)
+        if m['j'] == 0:
+            res.samples.append(dict(sequence=m['cmds'][1][0] + ['reg'] + m['cmds'][1][1], now=str(m['now']), rows=ids(got['seq'][1])))
+
+
+def oracle_c(res, m, got):
+    """the selected postings are the intersection of what each contribution selects alone,
+    whatever the order and multiplicity"""
+    cmd = lambda i: m['cmds'][i][0] + ['reg'] + m['cmds'][i][1]
+    names = [n for n, _ in m['runs']]
+
+    def viol(key, desc, observed, required):
+        res.violations.append(dict(key=key, desc=desc,
+                                   case=dict(journal=m['text'], now=str(m['now']), seq=[cmd(i) for i in range(len(names))], names=names),
+                                   observed=observed, required=required))
+    if got['all'][0] != 'OK':
+        return
+    all_ids = ids(got['all'][1])
+    alone = [(it, got['alone%d' % i]) for i, it in enumerate(m['dedup'])]
+    if any(g[0] != 'OK' for _, g in alone):
+        return                                           # a condition that fails by itself: nothing to intersect
+    has_b = any(it[0] == 'begin' for it in m['seq'])
+    has_e = any(it[0] == 'end' for it in m['seq'])
+    sets = [set(ids(g[1])) for it, g in alone
+            if not (it[0] == 'pfrom' and has_b) and not (it[0] == 'pto' and has_e)]   # -b / -e override the -p bound
+    want = [i for i in all_ids if all(i in s_ for s_ in sets)]
+    # what the intersection would be if -c contributed nothing (finding F95: -e moves `today`)
+    sets_noc = [set(ids(g[1])) for it, g in alone
+                if it[0] != 'current' and not (it[0] == 'pfrom' and has_b) and not (it[0] == 'pto' and has_e)]
+    want_noc = [i for i in all_ids if all(i in s_ for s_ in sets_noc)]
+    has_c = any(it[0] == 'current' for it in m['seq'])
+    for name in ('seq', 'perm', 'dedup'):
+        st, rows = got[name]
+        if st == 'OK' and ids(rows) != want and has_c and has_e and ids(rows) == want_noc:
+            viol('sequence:current-ignored-with-end', '%s reports %s: -c (date<=today) stopped limiting because -e moved `today`; '
+                 'the intersection of the contributions taken alone is %s' % (' '.join(cmd(names.index(name))), ids(rows), want), ids(rows), want)
+            return
+        if st != 'OK':
+            viol('sequence:fails-though-each-succeeds', 'every contribution alone gives a report but %s fails' % cmd(names.index(name)), st, want)
+        elif ids(rows) != want:
+            key = {'seq': 'sequence:not-intersection', 'perm': 'sequence:order-dependent', 'dedup': 'sequence:not-intersection'}[name]
+            if name != 'dedup' and ids(got['dedup'][1]) == want and got['dedup'][0] == 'OK' and len(m['seq']) != len(m['dedup']):
+                key = 'sequence:repetition-dependent'
+            viol(key, '%s selects %s, the intersection of its contributions taken alone is %s' % (' '.join(cmd(names.index(name))), ids(rows), want),
+                 ids(rows), want)
+            return
+
+
 def search(ctx, broken):
     import random
     for s in range(3):
@@ -814,6 +1051,35 @@ def replay(ctx, obj):
         print('replay: query %r -> %s (required %s)' % (case['argv'], got, obj.get('required')))
         if got == obj.get('observed'):
             res.violations.append(dict(key=obj['key'], desc=obj['desc']))
+        return res
+    if 'seq' in case:
+        path = ctx.path('replay.dat')
+        open(path, 'w').write(case['journal'])
+        now = datetime.date.fromisoformat(case['now'])
+        outs = []
+        for cmd, name in zip(case['seq'], case.get('names') or ['seq']):
+            i = cmd.index('reg')
+            st, rows = run_seq(path, now, cmd[:i], cmd[i + 1:])
+            outs.append((st, ids(rows)))
+            print('replay: %-7s %s -> %s %s' % (name, ' '.join(cmd), st, ','.join(ids(rows))))
+        names = case.get('names') or []
+        if 'all' in names and all(o[0] == 'OK' for o in outs):
+            byname = dict(zip(names, outs))
+            has_b = any(x in ('-b', '--begin') for x in case['seq'][names.index('seq')])
+            has_e = any(x in ('-e', '--end') for x in case['seq'][names.index('seq')])
+            sets = []
+            for n, cmd in zip(names, case['seq']):
+                if n.startswith('alone'):
+                    isp = cmd[0] in ('-p', '--period')
+                    if isp and ((cmd[1].startswith(('from', 'since')) and has_b) or (cmd[1].startswith(('to', 'until')) and has_e)):
+                        continue
+                    sets.append(set(byname[n][1]))
+            want = [i for i in byname['all'][1] if all(i in s_ for s_ in sets)]
+            for n in ('seq', 'perm', 'dedup'):
+                if byname[n][1] != want:
+                    print('replay: %s is not the intersection %s' % (n, want))
+                    res.violations.append(dict(key=obj.get('key', 'sequence'), desc=obj.get('desc', '')))
+                    break
         return res
     if 'journal' in case:
         # re-run the paired reports on the stored journal and evaluate the property text again
